@@ -97,7 +97,7 @@ Section DynProofs.
   (* one operation satisfies the law of the handlers live at that moment, and the law's own threading of the live
      lists (from the observed calls) agrees with the model *)
   Lemma dstep_law st o : wfd st ->
-    dlaw_step E st o (snd (dstep st o)) = [] /\ dnext st o (snd (dstep st o)) = fst (dstep st o).
+    dlaw_step E reacts st o (snd (dstep st o)) = [] /\ dnext st o (snd (dstep st o)) = fst (dstep st o).
   Proof.
     intros H. destruct o as [op|h|id|on|m]; cbn [Dyn.dstep Dyn.dnext dlaw_step fst snd]; [|split; reflexivity..].
     destruct (d_quiet st) eqn:Q.
@@ -106,7 +106,13 @@ Section DynProofs.
     - cbn [fst snd]. unfold empty_lists_delete in Sp. destruct op; try discriminate. split; reflexivity.
     - pose proof (step_law (env_at E st) (wf_with st H) (d_slot st) op) as L.
       pose proof (step_slot (env_at E st) (d_slot st) op) as S.
-      destruct (step (env_at E st) (d_slot st) op) as [s' ob]. cbn [fst snd] in *. rewrite L, S. split; reflexivity.
+      assert (forall c, op = Delete -> In c (o_calls (snd (step (env_at E st) (d_slot st) op))) ->
+                        o_slot (snd (step (env_at E st) (d_slot st) op)) = Some (snd c)) as D
+        by (intros c -> Hc; apply step_delete_stored; exact Hc).
+      destruct (step (env_at E st) (d_slot st) op) as [s' ob]. cbn [fst snd] in *. rewrite L, S. split; [|reflexivity].
+      destruct op; try reflexivity. cbn [app].
+      match goal with |- chk 6 (forallb ?f ?l) = [] => assert (forallb f l = true) as -> end; [|reflexivity].
+      apply forallb_forall. intros c Hc. pose proof (D c eq_refl Hc) as Dc. rewrite S in Dc. rewrite Dc. cbn. apply Nat.eqb_refl.
   Qed.
 
   Theorem drun_law ops : forall st i, wfd st -> dlaw_hist E reacts i st (drun st ops) = [].
@@ -329,7 +335,7 @@ End DynProofs.
 (* ================= which handlers raise does not matter, with handlers coming and going ================= *)
 Definition setr (f : nat -> bool) (h : handler) : handler := mkHandler (h_id h) (h_mech h) (f (h_id h)).
 Definition setr_state (f : nat -> bool) (st : dstate) : dstate :=
-  mkD (d_slot st) (map (setr f) (d_tl st)) (map (setr f) (d_ol st)) (d_alloc st) (d_quiet st) (d_kind st).
+  mkD (d_slot st) (map (setr f) (d_tl st)) (map (setr f) (d_ol st)) (d_alloc st) (d_quiet st) (d_kind st) (d_fresh st).
 Definition setr_reaction (f : nat -> bool) (r : reaction) : reaction :=
   match r with RKill v => RKill v | RSpawn h => RSpawn (setr f h) end.
 Definition setr_reacts (f : nat -> bool) (rs : list (nat * reaction)) : list (nat * reaction) :=
@@ -375,7 +381,7 @@ Section DynTransparent.
     unfold triggered. induction calls as [|c l IH]; [reflexivity|]. cbn [flat_map]. rewrite map_app, IH, filter_setr. reflexivity.
   Qed.
   Lemma settle_setr st s' calls : settle Rf (setr_state f st) s' calls = setr_state f (settle reacts st s' calls).
-  Proof. unfold settle. rewrite triggered_setr. apply (fold_setr _ (mkD s' (d_tl st) (d_ol st) (d_alloc st) (d_quiet st) (d_kind st))). Qed.
+  Proof. unfold settle. rewrite triggered_setr. apply (fold_setr _ (mkD s' (d_tl st) (d_ol st) (d_alloc st) (d_quiet st) (d_kind st) (next_fresh st s' calls))). Qed.
 
   Lemma env_at_setr st : env_at Ef (setr_state f st) = set_raises f (env_at E st).
   Proof. unfold env_at, set_raises. cbn [e_eq e_ne e_validate e_default e_kind e_handlers e_store_original d_kind setr_state].
